@@ -152,10 +152,11 @@ Qed.
 
 (* every supergate of a cone is a restriction of L: a gate keeps its type, its fan-in is its fan-in in L cut to the
    supergate's node set; a node turned into an input has no fan-in inside *)
-Lemma cone_supergates_restrict L o sg : sg ∈ cone_supergates L o →
+Lemma cone_supergates_restrict L o l sg : cone_supergates L o = Some l → sg ∈ l →
   c_name sg = sg_name ∧ c_bbs sg = ∅ ∧ ∃ S, ∀ n i, c_g sg !! n = Some i → restricts L S n i.
 Proof.
-  unfold cone_supergates. intros ([node S] & -> & _)%elem_of_list_fmap. simpl. split; [done|]. split; [done|].
+  unfold cone_supergates. case_bool_decide; [|done]. intros Heq Hin. apply (inj Some) in Heq. subst l.
+  apply elem_of_list_fmap in Hin as ([node S] & -> & _). simpl. split; [done|]. split; [done|].
   exists (S ∩ tfi_star L o). intros n i Hi. apply (mk_sg_lookup _ node S) in Hi as (HS & k & Hk & Hfi & Hty).
   apply cone_lookup in Hk as (Ht & k0 & Hk0 & Htk & Hfk).
   split; [set_solver|]. exists k0. split; [done|]. split; [rewrite Hfi, Hfk; set_solver|].
@@ -196,15 +197,17 @@ Proof.
 Qed.
 
 Lemma minimal_supergates_from_cones L m : minimal_supergates L = Ok m →
-  ∀ p, p ∈ m → ∃ o, o ∈ outputs L ∧ p.2 ∈ cone_supergates L o.
+  ∀ p, p ∈ m → ∃ o l, o ∈ outputs L ∧ cone_supergates L o = Some l ∧ p.2 ∈ l.
 Proof.
   unfold minimal_supergates. destruct (has_bb L); [done|].
+  destruct (mapM _ _) as [pc|] eqn:Epc; [|done].
   destruct (dedupe _ []) as [all|] eqn:Ed; [|done]. destruct (keyed _) as [m'|] eqn:Ek; [|done].
   intros [= <-] p Hp. apply keyed_snd in Ek.
   assert (p.2 ∈ minimal_cover all) as Hin by (rewrite <- Ek; by apply elem_of_list_fmap_1).
   apply minimal_cover_sub in Hin. destruct (dedupe_sub _ _ _ Ed _ Hin) as [Hc|Hc]; [|by apply elem_of_nil in Hc].
-  apply elem_of_list_join in Hc as (l & Hs & Hl). apply elem_of_list_fmap in Hl as (o & -> & Ho).
-  exists o. split; [by apply elem_of_elements|done].
+  apply elem_of_list_join in Hc as (l & Hs & Hl). apply mapM_Some in Epc.
+  apply elem_of_list_lookup in Hl as [k Hk]. destruct (Forall2_lookup_r _ _ _ _ _ Epc Hk) as (o & Ho & Hco).
+  exists o, l. split; [apply elem_of_elements; by eapply elem_of_list_lookup_2|done].
 Qed.
 
 (* shape, the part that follows from the construction alone *)
@@ -215,8 +218,8 @@ Proof.
   destruct (kahn (S (length m)) L m []) as [l|] eqn:Ek; [|done]. intros [= <-].
   rewrite Forall_forall. intros sg ([o s] & -> & Hp)%elem_of_list_fmap. simpl.
   destruct (kahn_sub _ _ _ _ _ Ek _ Hp) as [Hin|Hin]; [|by apply elem_of_nil in Hin].
-  destruct (minimal_supergates_from_cones _ _ Em _ Hin) as (o' & _ & Hc). simpl in Hc.
-  apply cone_supergates_restrict in Hc as (_ & Hb & HS). done.
+  destruct (minimal_supergates_from_cones _ _ Em _ Hin) as (o' & l' & _ & Hc & Hl'). simpl in Hl'.
+  destruct (cone_supergates_restrict _ _ _ _ Hc Hl') as (_ & Hb & HS). done.
 Qed.
 
 (* consequence in the vocabulary of the property: a gate of a returned supergate has the type it has in L and its
@@ -250,7 +253,7 @@ Proof.
   unfold supergates. destruct (minimal_supergates L) as [m| | |] eqn:Em; unfold rbind; try done.
   destruct (kahn (S (length m)) L m []) as [l|] eqn:Ek; [|done]. intros [= <-].
   assert (Forall (λ s, size (outputs (c_g s)) = 1) m.*2) as Hm.
-  { unfold minimal_supergates in Em. destruct (has_bb L); [done|].
+  { unfold minimal_supergates in Em. destruct (has_bb L); [done|]. destruct (mapM _ _) as [pc|]; [|done].
     destruct (dedupe _ []) as [all|]; [|done]. destruct (keyed _) as [m'|] eqn:Ekd; [|done].
     injection Em as <-. rewrite (keyed_snd _ _ Ekd). by eapply keyed_single. }
   rewrite Forall_forall in Hm |- *. intros sg ([o s] & -> & Hp)%elem_of_list_fmap. simpl.
@@ -313,8 +316,8 @@ Proof.
   pose proof (Hsub _ (elem_of_list_lookup_2 _ _ _ Hi)) as Hpm. pose proof (Hsub _ (elem_of_list_lookup_2 _ _ _ Hj)) as Hqm.
   (* a gate of a supergate is not a primary input of L *)
   assert (x ∉ inputs L) as HxL.
-  { destruct (minimal_supergates_from_cones _ _ Em _ Hqm) as (o & _ & Hc).
-    apply cone_supergates_restrict in Hc as (_ & _ & S & HS).
+  { destruct (minimal_supergates_from_cones _ _ Em _ Hqm) as (o & l' & _ & Hc & Hl').
+    destruct (cone_supergates_restrict _ _ _ _ Hc Hl') as (_ & _ & S & HS).
     apply elem_of_difference in Hxj as [Hd Hni]. apply elem_of_dom in Hd as [ix Hix].
     destruct (HS x ix Hix) as (_ & k & Hk & _ & Hty). intros (k' & Hk' & Hin)%elem_of_inputs.
     apply Hni. apply elem_of_inputs. exists ix. split; [done|]. destruct Hty as [Hty|[Hty _]]; congruence. }
@@ -323,7 +326,7 @@ Proof.
   destruct (kahn_ordered L _ _ _ _ Ek) with (i := i) (j := j) (p := p) (q := q) as [?|He]; try done.
   { split; [intros ? ? Hn; by apply elem_of_nil in Hn|intros ? ? ? ? Hn; by rewrite lookup_nil in Hn]. }
   exfalso. assert (p = q) as -> by (eapply nodup_fst_eq; eauto; unfold minimal_supergates in Em;
-    destruct (has_bb L); [done|]; destruct (dedupe _ []) as [all|]; [|done]; destruct (keyed _) as [m'|] eqn:Ekd; [|done];
+    destruct (has_bb L); [done|]; destruct (mapM _ _) as [pc|]; [|done]; destruct (dedupe _ []) as [all|]; [|done]; destruct (keyed _) as [m'|] eqn:Ekd; [|done];
     injection Em as <-; by eapply keyed_nodup).
   unfold gates in Hxj. set_solver.
 Qed.
